@@ -550,6 +550,37 @@ func c10enumerate(x *c10ctx) {
 			}
 		}
 	}
+	// Family D: state carried from one stream to the next (block cursor, segment index, scratch
+	// slices of a loader): two streams with DIFFERENT block layouts; the first stream leaves its
+	// cursor at every possible position (every span of one file token), the second stream's first
+	// token starts at every position (before, at and after that stale cursor).
+	layD1 := [][]int{{3}, {1, 2}, {2, 2}, {3, 3}}
+	layD2 := [][]int{{2, 2}, {1, 1, 1}, {3}, {2, 0, 1}, {1, 3}, {0, 4}}
+	mkBlocks := func(base int, sizes []int) []vgen.Block {
+		var bs []vgen.Block
+		for i, sz := range sizes {
+			bs = append(bs, vgen.Block{Variant: base + i, Size: sz})
+		}
+		return bs
+	}
+	for i1, l1 := range layD1 {
+		s1 := vgen.Stream{Name: ".", Blocks: mkBlocks(40+4*i1, l1)}
+		for _, sp1 := range vgen.Spans(s1.Len()) {
+			s1.Files = []vgen.FileTok{{sp1[0], sp1[1], "f"}}
+			for i2, l2 := range layD2 {
+				s2 := vgen.Stream{Name: "./d", Blocks: mkBlocks(56+4*i2, l2)}
+				for _, sp2 := range vgen.Spans(s2.Len()) {
+					s2.Files = []vgen.FileTok{{sp2[0], sp2[1], "g"}}
+					x.checkValid(vgen.Manifest{s1, s2}, true)
+				}
+				// a second token in the second stream that needs the cursor rewound
+				if n := s2.Len(); n >= 2 {
+					s2.Files = []vgen.FileTok{{n - 1, 1, "g"}, {0, n, "h"}}
+					x.checkValid(vgen.Manifest{s1, s2}, true)
+				}
+			}
+		}
+	}
 	// many blocks / long file (binary search depth)
 	for n := 4; n <= 9; n++ {
 		var blocks []vgen.Block
